@@ -69,8 +69,25 @@ func verifyFunction(P *Program, S *Specs, key string) (res *FuncResult) {
 	needDiscover := len(hs) > 0 || true
 	var last *Exec
 	heapRegs := map[string]func(*Ctx){}
-	for pass := 0; pass < 2; pass++ {
-		discover := pass == 0
+	modsetSize := func() int {
+		n := 0
+		for _, m := range modsets {
+			n += len(m)
+		}
+		return n
+	}
+	lastSize := -1
+	for pass := 0; pass < 8; pass++ {
+		// discovery passes are repeated until the loop modsets are stable (a heap array first touched inside a
+		// nested or inlined loop only shows up in the enclosing loops' modsets on the next pass)
+		discover := true
+		if pass > 0 && modsetSize() == lastSize {
+			discover = false
+		}
+		if pass == 7 {
+			discover = false
+		}
+		lastSize = modsetSize()
 		if discover && !needDiscover {
 			continue
 		}
@@ -196,6 +213,9 @@ func verifyFunction(P *Program, S *Specs, key string) (res *FuncResult) {
 			}
 		}
 		last = x
+		if !discover {
+			break
+		}
 	}
 	c := last.c
 	res.Ctx = c
